@@ -29,8 +29,10 @@
 //
 // Declared rewrites of real code (all logged): r4 (`format!` -> opaque string, two sites: the "Unrecognised formula" fallback text and the
 //   `{sh}!{f}` prefix of defined names -- neither is pinned down here), r6 on the two `for record in records` loops, R2m `mutparams`
-//   (names the entry values of `mut reader`, `mut cfb`), and three ad-hoc rewrites forced by Verus limitations: `or_else(|_| ..)` capturing
-//   `&mut` variables, and the two `.map(closure).collect()` chains inside this GENERIC impl (vstd's map/collect specification is not applied
+//   (names the entry values of `mut reader`, `mut cfb`), and four ad-hoc rewrites forced by Verus limitations: `or_else(|_| ..)` capturing
+//   `&mut` variables, `xtis.extend(..chunks_exact(6).take(cxti).map(closure))` (no specification hook for `take` / `map` of the foreign iterator
+//   ChunksExact: explicit loop over the same iterator, closure body verbatim -- as in unit names), and the two `.map(closure).collect()` chains
+//   inside this GENERIC impl (vstd's map/collect specification is not applied
 //   there; repro: `fn f<RS>(xfs: Vec<u16>, r: RS) { let g = xfs@; let v: Vec<u32> = xfs.into_iter().map(|x| -> (r: u32) ensures r == h(x) { hh(x) }).collect();
 //   assert(v@.len() == g.len()); }` fails, the same body in a non-generic fn verifies). The feature `picture` is off in the verified
 //   configuration: the verus! macro accepts the `#[cfg(feature = "picture")]` statements and match arm as they stand (nothing dropped).
@@ -139,6 +141,10 @@ pub open spec fn opt_seq<T>(o: Option<T>) -> Seq<T> { match o { Some(x) => seq![
 pub assume_specification<T, U, F: FnOnce(T) -> U>[ Option::<T>::map_or ](o: Option<T>, d: U, f: F) -> (r: U)
     requires o matches Some(v) ==> call_requires(f, (v,)),
     ensures o is None ==> r == d, o matches Some(v) ==> call_ensures(f, (v,), r);
+// TRUSTED: Option::filter (core::option documentation): None for None; for Some(v) the predicate decides between Some(v) and None
+pub assume_specification<T, P: FnOnce(&T) -> bool>[ Option::<T>::filter ](o: Option<T>, p: P) -> (r: Option<T>)
+    requires o matches Some(v) ==> call_requires(p, (&v,)),
+    ensures o is None ==> r is None, o matches Some(v) ==> (call_ensures(p, (&v,), true) && r == Some(v)) || (call_ensures(p, (&v,), false) && r is None);
 // TRUSTED: Result::unwrap_or_else (core::result documentation): the Ok value, or op(error)
 pub assume_specification<T, E, F: FnOnce(E) -> T>[ Result::<T, E>::unwrap_or_else ](x: Result<T, E>, op: F) -> (r: T)
     requires x matches Err(e) ==> call_requires(op, (e,)),
